@@ -27,6 +27,11 @@ class _Any(object):
 
 
 _ANY = _Any()
+_NAN = float("nan")      # a value that does not equal itself; ONE object, stored as attribute and used as search value
+
+
+def _val(v):
+    return _ANY if v == "<ANY>" else (_NAN if v == "<NAN>" else v)
 
 def canon_count_error(e):
     msg = str(e)
@@ -58,7 +63,7 @@ def _thunk(mod, start, q):
             r = mod.find(start, **kw)
             return {"ok": None if r is None else r.label}
         return find
-    value = _ANY if q.get("value") == "<ANY>" else q.get("value")
+    value = _val(q.get("value"))
     if fn == "findall_by_attr":
         return lambda: {"ok": [n.label for n in mod.findall_by_attr(
             start, value, name=q["name"], maxlevel=q["maxlevel"], mincount=q["mincount"], maxcount=q["maxcount"])]}
@@ -85,7 +90,7 @@ def impl(case):
     if issubclass(cls, CLASSES["nm"]):
         for lab, name, val in case["attrs"]:
             if name in STORED:       # the table also lists what every node has anyway: label, properties, class defaults
-                setattr(index[lab], name, val)
+                setattr(index[lab], name, _val(val))
     mod = cachedsearch if case.get("module") == "cachedsearch" else search
     start = index[case["start"]]
     thunks = [_thunk(mod, start, q) for q in case["queries"]]
@@ -99,7 +104,7 @@ def impl(case):
             extra.x = warm.get("xval", 0)
             for lab, name, val in warm.get("attrs", []):
                 saved.append((lab, name, getattr(index[lab], name, _MISSING)))
-                setattr(index[lab], name, val)
+                setattr(index[lab], name, _val(val))
         for t in thunks:
             _run(t)
         extra.parent = None
